@@ -115,7 +115,9 @@ pub fn build(n: usize, edges: &[(usize, usize)], perm: &[usize; 4], wrap_of: &dy
             roots.push(Root { site: if i % 2 == 0 { "param".into() } else { "return".into() }, wrap: "direct".into(), node: i, file: 0 });
         }
     }
-    TypeGraph { n_files: 2, nodes, edges: es, roots }
+    // path-spelled types in every third shape (by edge count)
+    let qualify = es.len() % 3 == 2;
+    TypeGraph { n_files: 2, nodes, edges: es, roots, qualify }
 }
 
 fn random_dag(t: &mut Tape) -> TypeGraph {
